@@ -68,6 +68,11 @@ pub enum UOp {
   /// the source's terminal to its groups shows in the output
   #[serde(alias = "GroupLast")]
   GroupLast(u8),
+  /// group_by(key = weight mod m) whose group consumers log their own terminal
+  /// (on_complete / on_error per group) before the groups are merged again:
+  /// the order in which the groups are told about the source's terminal is
+  /// part of what is delivered
+  GroupTap(u8),
   Average,
   /// timestamp() with the (real-clock) instant mapped away again
   Timestamp,
@@ -175,6 +180,9 @@ pub struct Counters {
   /// ... and of every outer item arriving at a flattening operator (= an
   /// inner observable being built)
   pub inner_builds: std::sync::Mutex<Vec<u64>>,
+  /// what the group consumers of a GroupTap node were told, in order:
+  /// (key, 0 = complete / 1 = error)
+  pub group_terminals: std::sync::Mutex<Vec<(i64, u8)>>,
 }
 
 /// Wrapper around an inner observable of a flattening operator that records
@@ -517,6 +525,19 @@ macro_rules! build_fn {
               let m = (*m as i64).max(1);
               s.group_by::<_, _, $subject>(move |v: &Val| v.weight().rem_euclid(m)).$flat_map(|g| g.take_last(1)).box_it()
             }
+            UOp::GroupTap(m) => {
+              let m = (*m as i64).max(1);
+              let c = env.counters.clone();
+              s.group_by::<_, _, $subject>(move |v: &Val| v.weight().rem_euclid(m))
+                .$flat_map(move |g| {
+                  let key = g.key;
+                  let (c1, c2) = (c.clone(), c.clone());
+                  g.on_complete(move || c1.group_terminals.lock().unwrap().push((key, 0)))
+                    .on_error(move |_e: E| c2.group_terminals.lock().unwrap().push((key, 1)))
+                    .on_error_map(|_| 0)
+                })
+                .box_it()
+            }
             UOp::Average => s.average().box_it(),
             UOp::Timestamp => s.timestamp().map(|(v, _)| v).box_it(),
             UOp::OnComplete => {
@@ -771,6 +792,7 @@ fn gen_uop(rng: &mut Rng, cfg: &GenCfg) -> UOp {
         47 => UOp::ReduceInitial,
         48 => UOp::DistinctUntilKeyChanged,
         49 => UOp::GroupLast(small + 2),
+        50 => UOp::GroupTap(small + 2),
         _ => UOp::Map,
       }
     } else {
